@@ -70,9 +70,13 @@ def _run_one(args: T.Tuple[str, str, T.Dict[str, T.Any]]) -> T.Dict[str, T.Any]:
         try:
             mod.run(ctx)
         except AnalysisError as ex:
-            if entry["kind"] == "fires" and entry.get("allow_error"):
+            # same policy as the driver: findings decided before a later rule gave up stand
+            if entry["kind"] == "fires" and any(f.key not in known for f in ctx.findings):
+                pass
+            elif entry["kind"] == "fires" and entry.get("allow_error"):
                 return {"name": entry["name"], "kind": entry["kind"], "status": "ok", "detail": f"analysis refused: {ex}"}
-            return {"name": entry["name"], "kind": entry["kind"], "status": "error", "detail": str(ex)[:200]}
+            else:
+                return {"name": entry["name"], "kind": entry["kind"], "status": "error", "detail": str(ex)[:200]}
         except Exception as ex:          # a crash of the checker is a self-test failure, not a verdict
             import traceback
             return {"name": entry["name"], "kind": entry["kind"], "status": "error", "detail": "checker crashed: " + traceback.format_exc()[-300:]}
